@@ -95,6 +95,25 @@ func renderTraceDoc(html string, fonts wtext.FontConfiguration, repo string) (Tr
 	return t, d
 }
 
+// rewrite calls Document.Write once more on an already rendered (and written) document.
+func rewrite(d *render.Doc) Trace {
+	var t Trace
+	rec := render.NewRec()
+	o := render.Guard(renderTimeout, func() { d.Out.Write(wdoc{rec}, 1, nil) })
+	switch {
+	case o.Timeout:
+		t.Crash = "timeout"
+	case !o.OK():
+		t.Crash = "panic:" + o.Site
+	}
+	if t.Crash != "" {
+		return t
+	}
+	t.Pages = len(d.Pages)
+	t.Raw, t.Canon, t.MaxAnchorsPerPage = canonTrace(rec)
+	return t
+}
+
 func canonTrace(rec *render.Rec) (raw, canon string, maxPerPage int) {
 	// page index of the k-th Anchor event
 	var pageOf []int
@@ -250,8 +269,12 @@ func (rn *runner) compare(scen string, d Doc, ref, got Trace, detail string) boo
 	i, la, lb, op := firstDiff(a, b)
 	if key == "" {
 		key = "call:" + op
-		if k := rn.attribute(d); k != "" {
-			key = k
+		// the known order dependences (KF15-2/3) act during layout: a second Write of the same
+		// laid-out Document cannot be explained by them
+		if scen != "write-twice" {
+			if k := rn.attribute(d); k != "" {
+				key = k
+			}
 		}
 	}
 	rn.out.Add(res.Finding{Kind: "judge", Op: "judge:" + scen, Input: d.HTML, Impl: lb, Model: la,
@@ -609,6 +632,15 @@ func runDocs(tier string, seed uint64, modelPath, repo string, out *res.Result, 
 		}
 		if rdoc != nil && model != nil {
 			linksCorr(model, d, rdoc, out)
+		}
+		// (i) write twice: the SAME Document object painted again onto fresh recording backends
+		if rdoc != nil && ref.Crash == "" {
+			for k := 2; k <= 3; k++ {
+				again := rewrite(rdoc)
+				if !rn.compare("write-twice", d, ref, again, fmt.Sprintf("Document.Write number %d of the same Document object (one document.Render)", k)) {
+					break
+				}
+			}
 		}
 		if ref.Crash != "" {
 			out.Hit("crash-skipped")
